@@ -1,6 +1,8 @@
 package executor
 
 import (
+	"github.com/vektah/gqlparser/v2/ast"
+
 	"github.com/buildbuildio/pebbles/planner"
 	"github.com/buildbuildio/pebbles/queryer"
 	"github.com/buildbuildio/pebbles/requests"
@@ -154,4 +156,65 @@ func VerifRootMergeOrder() {
 	nodeRes, _ := res["node"].(map[string]interface{})
 	verifAssert(nodeRes != nil && nodeRes["f"] == "value", "the answer of the service that knows the entity reaches the client, whichever answer arrives last")
 	verifReach("root answers merged")
+}
+
+// ---- C13: children of two root steps completed by one third service, under every interleaving ----
+
+type vEchoQueryer struct{ url string }
+
+func (q *vEchoQueryer) URL() string { return q.url }
+func (q *vEchoQueryer) Subscribe(*requests.Request, <-chan struct{}, chan *requests.Response) error {
+	return nil
+}
+func (q *vEchoQueryer) Query(in []*requests.Request) ([]map[string]interface{}, error) {
+	out := make([]map[string]interface{}, len(in))
+	for i, r := range in {
+		id, _ := r.Variables["id"].(string)
+		out[i] = map[string]interface{}{"node": map[string]interface{}{"extra": "x-" + id}}
+	}
+	return out, nil
+}
+
+func vObjField(name, typ string, sub ...ast.Selection) *ast.Field {
+	return &ast.Field{Name: name, Alias: name, SelectionSet: sub, Definition: &ast.FieldDefinition{Name: name, Type: ast.NamedType(typ, nil)}}
+}
+
+// VerifChildrenOrder: two root services each answer one object; both objects are completed by the same
+// third service, so the two lookups form one group whose order is the order in which the root answers
+// arrived. The ids are symbolic among {"a", "b", ""}: an empty id cannot be looked up and fails the
+// operation. Whatever the interleaving, the same inputs give the same data and the same error.
+func VerifChildrenOrder() {
+	ids := []string{"a", "b", ""}
+	idA := ids[verifChoice("idA", 3)]
+	idB := ids[verifChoice("idB", 3)]
+	child := func(point, typ string) *planner.QueryPlanStep {
+		return &planner.QueryPlanStep{URL: "u2", ParentType: typ, InsertionPoint: []string{point}, QueryString: `query($id: ID!) { node(id: $id) { ... on ` + typ + ` { extra } } }`,
+			QueryStringHash: [32]byte{byte(len(typ)), typ[0]}}
+	}
+	idSel := &ast.Field{Name: "id", Alias: "id", Definition: &ast.FieldDefinition{Name: "id", Type: ast.NonNullNamedType("ID", nil)}}
+	plan := &planner.QueryPlan{RootSteps: []*planner.QueryPlanStep{
+		{URL: "u0", ParentType: "Query", QueryString: `{ getA { id } }`, SelectionSet: ast.SelectionSet{vObjField("getA", "A", idSel)}, Then: []*planner.QueryPlanStep{child("getA", "A")}},
+		{URL: "u1", ParentType: "Query", QueryString: `{ getB { id } }`, SelectionSet: ast.SelectionSet{vObjField("getB", "B", idSel)}, Then: []*planner.QueryPlanStep{child("getB", "B")}},
+	}}
+	qs := map[string]queryer.Queryer{
+		"u0": &vFixedQueryer{url: "u0", res: map[string]interface{}{"getA": map[string]interface{}{"id": idA}}},
+		"u1": &vFixedQueryer{url: "u1", res: map[string]interface{}{"getB": map[string]interface{}{"id": idB}}},
+		"u2": &vEchoQueryer{url: "u2"},
+	}
+	var ex ParallelExecutor
+	res, err := ex.Execute(&ExecutionContext{QueryPlan: plan, Request: &requests.Request{}, Queryers: qs})
+	outcome := ""
+	if err != nil {
+		outcome = "error: " + err.Error()
+		verifAssert(idA == "" || idB == "", "healthy services and usable ids yield no error")
+		verifReach("children failed")
+	} else {
+		verifAssert(idA != "" && idB != "", "an object without a usable id cannot be completed: that is reported")
+		a, _ := res["getA"].(map[string]interface{})
+		b, _ := res["getB"].(map[string]interface{})
+		verifAssert(a != nil && b != nil && a["extra"] == "x-"+idA && b["extra"] == "x-"+idB, "every object is completed with the answer computed for its own id")
+		outcome = "data"
+		verifReach("children stitched")
+	}
+	verifOutcome("idA="+idA+" idB="+idB, outcome)
 }
